@@ -1,4 +1,6 @@
 /- Driver ops `parse` (C01, C07) and `lookuparg` (C01 stage 1) -/
+import Carapace.Spec.Pflag
+import Carapace.Model.Traverse
 import Driver.Alg
 import Carapace.Model.PflagFork
 import Carapace.Model.Flags
@@ -47,6 +49,19 @@ def toFlagDef (f : FlagS) : FlagDef :=
   { name := f.name.toList, short := f.short.toList.head?,
     noOptDef := f.kind == "bool" || f.kind == "count" || f.kind == "optString",
     takesValue := !(f.kind == "bool" || f.kind == "count") }
+
+def toPFlag (f : FlagS) : Spec.Pflag.PFlag :=
+  { name := f.name.toList, short := f.short.toList.head?,
+    kind := if f.kind == "bool" then .bool else if f.kind == "count" then .count
+            else if f.kind == "stringSlice" then .stringSlice else if f.kind == "optString" then .optString else .string }
+
+def toTCmd (c : CmdS) : TCmd :=
+  let par : Option Nat := if c.parent < 0 then none else some (Int.toNat c.parent)
+  let als : List Str := c.aliases.map (fun a => a.toList)
+  let fls : List (Spec.Pflag.PFlag × Bool) := c.flags.map (fun f => (toPFlag f, f.persistent))
+  { name := c.name.toList, aliases := als, parent := par, interspersed := c.interspersed, noFlagParse := c.noFlagParse, flags := fls }
+
+def toTTree (cmds : Array CmdS) : TTree := cmds.map toTCmd
 
 /-- the command in which flag `name` is defined for command `c` (own, or persistent in an ancestor) -/
 partial def flagOwner (cmds : Array CmdS) (c : Nat) (name : String) (own : Bool := true) : Option Nat :=
@@ -218,13 +233,49 @@ def runParseOp (inp out : Json) : Json :=
       if !(values.any (fun v => jstr (jget v "tag") == "longhand flags")) then none
       else if srt expected == srt got then none
       else some s!"{words}: rule model offers {srt expected}, real offers {srt got}"
+  -- C01: the slot the traverse model picks vs the markers the real code serves
+  let slotDiff : Option String :=
+    if panic != "" then none else
+    let tt := toTTree cmds
+    let slot := traverseSlot tt (cmds.size + 2) 0 (words.dropLast.map String.toList) cur.toList
+    let realMarkers := (values.filterMap (fun v => (findMarker (jstr (jget v "value"))).map (fun (c, k) => s!"M{c}_{k}"))).eraseDups
+    let flagMarker (c : Nat) (name : Str) : List String :=
+      let n := String.ofList name
+      match flagOwner cmds c n with
+      | some o =>
+        (match ((cmds[o]?).getD default).flags.find? (fun f => f.name == n) with
+         | some f => if f.kind == "bool" || f.kind == "count" then [] else [s!"M{o}_flag_{n}"]
+         | none => [])
+      | none => []
+    let expect : Option (List String) :=
+      match slot with
+      | .notFollowed => none
+      | .message | .flagNames _ | .boolValues _ _ => some []
+      | .positional c k =>
+        let cs := (cmds[c]?).getD default
+        some (if k < cs.npos then [s!"M{c}_pos{k}"] else if cs.posAny then [s!"M{c}_posAny"] else [])
+      | .dash c k =>
+        let cs := (cmds[c]?).getD default
+        some (if k < cs.ndash then [s!"M{c}_dash{k}"] else if cs.dashAny then [s!"M{c}_dashAny"] else [])
+      | .flagValue c name => some (flagMarker c name)
+      | .flagValueAttached c name _ => some (flagMarker c name)
+    let srt (l : List String) := sortBy (fun a b => Str.lt a.toList b.toList) l
+    match expect with
+    | none => none
+    | some e =>
+      let msgOk := match slot with | .message => (jarr ex "messages").size > 0 | _ => true
+      if srt e == srt realMarkers && msgOk then none
+      else some s!"{words}: traverse model picks {repr slot} (markers {e}), real serves {realMarkers} messages {(jarr ex "messages").toList.map jstr}"
   let crash : List AFail := if panic != "" && !panic.startsWith "execute:" then
     [{ prop := "C18", code := "panic:traverse", detail := panic }, { prop := "C01", code := "panic", detail := panic }] else []
   let fails := crash ++ c01.take 2 ++ c01b ++ c07.take 2 ++ c07b.take 1 ++ subFails.take 1
-  Json.mkObj [("same", Json.bool ruleDiff.isNone), ("diff", Json.str (ruleDiff.getD "")),
-              ("aspects", Json.mkObj [("C01", Json.bool true), ("C07", Json.bool ruleDiff.isNone)]),
+  Json.mkObj [("same", Json.bool (ruleDiff.isNone && slotDiff.isNone)), ("diff", Json.str ((ruleDiff.getD "") ++ (slotDiff.getD ""))),
+              ("aspects", Json.mkObj [("C01", Json.bool slotDiff.isNone), ("C07", Json.bool ruleDiff.isNone)]),
               ("fails", Json.arr (fails.map afailJson).toArray),
-              ("feat", Json.mkObj [("ncmds", Json.num cmds.size), ("nwords", Json.num words.length), ("ncands", Json.num values.length),
+              ("feat", Json.mkObj [("slot", Json.str (match traverseSlot (toTTree cmds) (cmds.size + 2) 0 (words.dropLast.map String.toList) cur.toList with
+                                      | .message => "message" | .dash .. => "dash" | .flagValue .. => "flagValue" | .flagValueAttached .. => "flagValueAttached"
+                                      | .boolValues .. => "boolValues" | .flagNames .. => "flagNames" | .positional .. => "positional" | .notFollowed => "notFollowed")),
+                                   ("ncmds", Json.num cmds.size), ("nwords", Json.num words.length), ("ncands", Json.num values.length),
                                    ("msgs", Json.num (jarr ex "messages").size), ("typedOk", Json.bool typedOk)])]
 
 /-- `lookuparg`: model of LookupArg / Consumes vs the real functions, and the stage-1 agreement with
